@@ -8,4 +8,9 @@ CLAIMS = {
   'note': 'Trusted: CPython ast, the abstract interpreter (sa/absint.py), the oracle table written from TeXbook ch. 8 as worded by the property; get_let is summarised as identity (no \\let alias in force).',
   'technique': 'conditional constant propagation over (state x catcode x next-catcode) on the tokenizer ast, table folding, emptiness-dominance dataflow',
  },
+ 'C03': {
+  'text': 'Decides the structural part of branch selection for every path of the anchored code: the branch index of processIfContent is provably in range (booleans 0/1 with the else padding; integer selectors dominated by a range test that redirects out-of-range selectors to the else case); the branch scanner table (token kind newif/if*/fi/else/or/other x nesting 0/>0 -> copied/new case/terminates, nesting +1/-1/0) and six whole-branch selections over token kinds; every conditional primitive (IfCommand/NewIf subclasses) calls processIfContent exactly once per normal path and returns no tokens; ifnum/ifdim relation characters select with the matching operator in first-read/second-read order, ifodd with % 2; the newif trio is registered globally and bound to one switch; the scanner recognition predicate (name prefix if) agrees with the class table of conditionals. Not decided: which branch a concrete program selects for concrete operand values.',
+  'note': 'Trusted: CPython ast, sa/absint.py, the oracle tables from the TeXbook as worded by the property. Two known findings (ordinary macros ifthenelse, iflanguage counted as opening conditionals) are listed in known_findings.json.',
+  'technique': 'conditional constant propagation over (token kind x nesting) on the branch scanner, bounded-index dataflow, per-path call counting, table extraction',
+ },
 }
